@@ -698,3 +698,130 @@ def _mat_expr(node, mats):
         if a is not None and b is not None:
             return a.add(b, 1 if isinstance(node.op, ast.Add) else -1)
     return None
+
+
+# ------------------------------------------------------------------ C16 subnetwork filter / companion block arithmetic
+
+LINALG = "causationentropy/core/linalg.py"
+
+
+def _get_call(node, var):
+    """`<var>.get('<key>'[, default])` -> (key, default-node-or-None); else None"""
+    if (isinstance(node, ast.Call) and isinstance(node.func, ast.Attribute) and node.func.attr == "get" and isinstance(node.func.value, ast.Name)
+            and node.func.value.id == var and 1 <= len(node.args) <= 2 and not node.keywords and isinstance(node.args[0], ast.Constant) and isinstance(node.args[0].value, str)):
+        return node.args[0].value, (node.args[1] if len(node.args) == 2 else None)
+    return None
+
+
+def linalg_obligation_source():
+    """`subnetwork`: which attribute filters, which endpoints and attributes (with which defaults) are copied;
+    `companion_matrix`: the loop ranges and the slice arithmetic of the two block assignments -- all read off the CURRENT
+    source, emitted as Lean definitions, with the obligations that they are the model's (`subEdges`, `companion`)."""
+    from pyexpr import Sym, Untranslatable as U
+    funcs = _funcs(_parse(LINALG))
+    sub, comp = funcs.get("subnetwork"), funcs.get("companion_matrix")
+    if sub is None or comp is None:
+        raise Untranslatable("subnetwork / companion_matrix not found")
+    # ---- subnetwork
+    sp = [a.arg for a in sub.args.args]
+    if len(sp) != 2:
+        raise Untranslatable(f"subnetwork takes {sp}")
+    Gn, lagn = sp
+    fors = [st for st in sub.body if isinstance(st, ast.For)]
+    if len(fors) != 1 or ast.unparse(fors[0].iter) != f"{Gn}.edges(keys=True, data=True)" or not (isinstance(fors[0].target, ast.Tuple) and len(fors[0].target.elts) == 4):
+        raise Untranslatable("edge loop of subnetwork")
+    u, v, _k, data = [e.id for e in fors[0].target.elts]
+    body = fors[0].body
+    if len(body) != 1 or not isinstance(body[0], ast.If) or body[0].orelse:
+        raise Untranslatable("edge loop body of subnetwork")
+    test = body[0].test
+    if not (isinstance(test, ast.Compare) and len(test.ops) == 1 and isinstance(test.ops[0], ast.Eq)):
+        raise Untranslatable("filter of subnetwork")
+    sides = [test.left, test.comparators[0]]
+    g = [s for s in sides if _get_call(s, data)]
+    o = [s for s in sides if isinstance(s, ast.Name) and s.id == lagn]
+    if len(g) != 1 or len(o) != 1 or _get_call(g[0], data)[1] is not None:
+        raise Untranslatable("filter of subnetwork is not data.get(<key>) == lag")
+    filt = _get_call(g[0], data)[0]
+    env = {}
+    add = None
+    for st in body[0].body:
+        if isinstance(st, ast.Assign) and len(st.targets) == 1 and isinstance(st.targets[0], ast.Name) and _get_call(st.value, data):
+            env[st.targets[0].id] = _get_call(st.value, data)
+        elif isinstance(st, ast.Expr) and isinstance(st.value, ast.Call) and ast.unparse(st.value.func).endswith(".add_edge"):
+            add = st.value
+        else:
+            raise Untranslatable(f"statement in subnetwork: {ast.unparse(st)[:50]}")
+    if add is None or len(add.args) != 2 or not all(isinstance(a, ast.Name) for a in add.args):
+        raise Untranslatable("add_edge of subnetwork")
+    ends = [a.id for a in add.args]
+    if sorted(ends) != sorted([u, v]):
+        raise Untranslatable("add_edge endpoints")
+    copied = []
+    for kw in add.keywords:
+        val = env.get(kw.value.id) if isinstance(kw.value, ast.Name) else _get_call(kw.value, data)
+        if kw.arg is None or val is None or val[1] is None or not (isinstance(val[1], ast.Constant) and isinstance(val[1].value, (int, float)) and not isinstance(val[1].value, bool)):
+            raise Untranslatable("copied attribute of subnetwork")
+        copied.append((kw.arg, val[0], _arith(val[1], [])))
+    # ---- companion_matrix
+    loops = [st for st in comp.body if isinstance(st, ast.For)]
+    if len(loops) != 2 or not all(isinstance(l.target, ast.Name) for l in loops):
+        raise Untranslatable("loops of companion_matrix")
+    ml = [st for st in comp.body if isinstance(st, ast.Assign) and ast.unparse(st.targets[0]) == "max_lag"]
+    if len(ml) != 1 or ast.unparse(ml[0].value).replace('"', "'") != "max((data.get('lag', 0) for _, _, data in G.edges(data=True)), default=0)":
+        raise Untranslatable("max_lag of companion_matrix")
+    nn = [st for st in comp.body if isinstance(st, ast.Assign) and ast.unparse(st.value) == "G.number_of_nodes()"]
+    if len(nn) != 1:
+        raise Untranslatable("node count of companion_matrix")
+    nname = nn[0].targets[0].id
+    out = {}
+    for which, loop, rng_src in (("top", loops[0], "range(1, max_lag + 1)"), ("sub", loops[1], "range(1, max_lag)")):
+        if ast.unparse(loop.iter) != rng_src:
+            raise Untranslatable(f"{which} loop range {ast.unparse(loop.iter)}")
+        sym = Sym({loop.target.id: ("scal", "j"), nname: ("scal", "n")})
+        assign = None
+        for st in loop.body:
+            if isinstance(st, ast.Assign) and isinstance(st.targets[0], ast.Subscript):
+                assign = st
+                break
+            if isinstance(st, ast.Assign) and isinstance(st.targets[0], ast.Name):
+                try:
+                    sym.env[st.targets[0].id] = sym.ev(st.value)
+                except U:
+                    sym.env[st.targets[0].id] = ("opaque", ast.unparse(st.value))
+            else:
+                raise Untranslatable(f"statement in {which} loop")
+        sl = assign.targets[0].slice if assign is not None else None
+        if not (isinstance(sl, ast.Tuple) and len(sl.elts) == 2 and all(isinstance(e, ast.Slice) and e.step is None and e.lower is not None and e.upper is not None for e in sl.elts)):
+            raise Untranslatable(f"block assignment of the {which} loop")
+        try:
+            terms = [sym.ev(b)[1] for e in sl.elts for b in (e.lower, e.upper)]
+        except U as e:
+            raise Untranslatable(str(e))
+        rhs = assign.value
+        if which == "top":
+            k, t = sym.env.get(rhs.id, (None, None)) if isinstance(rhs, ast.Name) else (None, None)
+            hname = next((nm for nm, (kk, tt) in sym.env.items() if kk == "opaque" and tt == f"subnetwork(G, {loop.target.id})"), None)
+            if k != "opaque" or hname is None or t != f"nx.adjacency_matrix({hname}).toarray()":
+                raise Untranslatable("top block is not the adjacency of subnetwork(G, lag)")
+        elif ast.unparse(rhs) not in (f"np.eye({nname})", f"np.identity({nname})"):
+            raise Untranslatable("sub-diagonal block is not the identity")
+        out[which] = terms
+    L = ["import CEModel.Linalg\nimport Mathlib.Tactic.Ring\n/-! GENERATED from /repo by harness/gen_tables.py -- do not edit. -/\nnamespace Generated"]
+    L.append(f"def filterAttr : String := {_lstr(filt)}")
+    L.append(f"def endpointsSwapped : Bool := {'false' if ends == [u, v] else 'true'}")
+    L.append("def copied : List (String × String × Rat) := [" + ", ".join(f"({_lstr(a)}, {_lstr(b)}, {c})" for a, b, c in copied) + "]")
+    for which in ("top", "sub"):
+        for nm, t in zip(("R0", "R1", "C0", "C1"), out[which]):
+            L.append(f"def {which}{nm} (j n : Rat) : Rat := {t}")
+    L.append("end Generated")
+    L.append("/-- `subnetwork` filters on `lag`, keeps the orientation and copies `cmi` (default 0) and `p_value` (default 1): the model's `subEdges` -/")
+    L.append('example : Generated.filterAttr = "lag" ∧ Generated.endpointsSwapped = false ∧\n'
+             '    (Generated.copied = [("cmi", "cmi", 0), ("p_value", "p_value", 1)] ∨ Generated.copied = [("p_value", "p_value", 1), ("cmi", "cmi", 0)]) := by decide')
+    L.append("/-- block written for python lag `l+1` (l = 0..K-1): rows 0..n, columns l*n..(l+1)*n — `setBlock C 0 (l*n)` of an n×n block in the model -/")
+    L.append("example : ∀ l n : Rat, Generated.topR0 (l + 1) n = 0 ∧ Generated.topR1 (l + 1) n = n ∧ Generated.topC0 (l + 1) n = l * n ∧ Generated.topC1 (l + 1) n = l * n + n := by\n"
+             "  intro l n; refine ⟨?_, ?_, ?_, ?_⟩ <;> simp only [Generated.topR0, Generated.topR1, Generated.topC0, Generated.topC1] <;> ring1")
+    L.append("/-- block written for python k+1 (k = 0..K-2): rows (k+1)n.., columns k*n.. — `setBlock C ((k+1)*n) (k*n) (identity n)` in the model -/")
+    L.append("example : ∀ k n : Rat, Generated.subR0 (k + 1) n = (k + 1) * n ∧ Generated.subR1 (k + 1) n = (k + 1) * n + n ∧ Generated.subC0 (k + 1) n = k * n ∧ Generated.subC1 (k + 1) n = k * n + n := by\n"
+             "  intro k n; refine ⟨?_, ?_, ?_, ?_⟩ <;> simp only [Generated.subR0, Generated.subR1, Generated.subC0, Generated.subC1] <;> ring1")
+    return "\n".join(L) + "\n"
